@@ -44,3 +44,39 @@ func Netlink() map[string]uint64 { return load("netlink_uapi.txt") }
 
 // Stat returns S_I* defines.
 func Stat() map[string]uint64 { return load("stat_uapi.txt") }
+
+// SyscallsGDB returns arch -> number -> name as transcribed from gdb's syscall XML files
+// (generated from the kernel's arch/*/syscall.tbl), minus the rows listed in
+// syscalls_gdb_skip.txt (rows on which gdb and the library's published tables use different
+// spellings at the pinned commit; they are not used as expectations).
+func SyscallsGDB() map[string]map[int]string {
+	skip := map[string]bool{}
+	if b, err := files.ReadFile("syscalls_gdb_skip.txt"); err == nil {
+		for _, l := range strings.Split(string(b), "\n") {
+			f := strings.Fields(l)
+			if len(f) >= 2 && !strings.HasPrefix(l, "#") {
+				skip[f[0]+" "+f[1]] = true
+			}
+		}
+	}
+	b, err := files.ReadFile("syscalls_gdb.txt")
+	if err != nil {
+		panic(err)
+	}
+	out := map[string]map[int]string{}
+	for _, l := range strings.Split(string(b), "\n") {
+		f := strings.Fields(l)
+		if len(f) != 3 || strings.HasPrefix(l, "#") || skip[f[0]+" "+f[1]] {
+			continue
+		}
+		n, err := strconv.Atoi(f[1])
+		if err != nil {
+			continue
+		}
+		if out[f[0]] == nil {
+			out[f[0]] = map[int]string{}
+		}
+		out[f[0]][n] = f[2]
+	}
+	return out
+}
